@@ -46,9 +46,10 @@ Roles       == {"unreg", "client", "oper", "services"}
 (* distinguish them: none of them may influence the marker logic).          *)
 LineKinds(role) ==
     CASE role = "unreg"    -> {"ping", "nick", "user", "quit"}
-      [] role = "client"   -> {"privmsg", "join", "ping", "nick", "quit"}
+      [] role = "client"   -> {"privmsg", "join", "ping", "nick", "oper", "quit"}   \* "oper": OPER, the role changes
       [] role = "oper"     -> {"privmsg", "kill", "mode", "quit"}
-      [] role = "services" -> {"snick", "sprivmsg", "sjoin", "skill", "squit"}
+      \* "server": the prelude stopped after PASS, the request itself is the SERVER line
+      [] role = "services" -> {"snick", "sprivmsg", "sjoin", "skill", "squit", "server"}
 PreludeCmid == 9       \* marker left behind by the role's prelude (its last line has id 9)
 OtherBase   == 20      \* "b" numbers its own messages 20, 21, ...
 NoSnap      == [idx |-> -1]
